@@ -2,7 +2,7 @@
 import json, os, time
 from core import *
 
-ENGINE_INVS = "TypeOK AttemptBound NoEmptyAction StackShape InvC01 InvC02 InvC03 InvC04 InvC05 InvC10 InvC17 InvC18"
+ENGINE_INVS = "TypeOK AttemptBound NoEmptyAction StackShape InvC01 InvC02 InvC03 InvC04 InvC05 InvC10 InvC11E InvC17 InvC18"
 
 # property -> (model-checking families quick, thorough, generator modes quick, thorough)
 # an MC family entry is (Family, MaxN, MaxVisits)
@@ -25,6 +25,10 @@ PLAN = {
     "C10": dict(mc_q=[("nestsmall", 1, 4), ("nesterr", 2, 3), ("flowretry", 1, 5)],
                 mc_t=[("nest", 1, 5), ("nest3", 1, 5), ("nesterr", 2, 4), ("flowretry", 1, 6)],
                 gen_q=("nest,flowretry", 180), gen_t=("nest,err,flowretry", 3000)),
+    # C11 through a flow: flows whose steps are batch nodes, cancelled from inside an item
+    "C11": dict(mc_q=[("batchloop", 2, 3), ("flowbatch", 2, 3)],
+                mc_t=[("batchloop", 2, 5), ("flowbatch", 2, 5)],
+                gen_q=("batchflow", 150), gen_t=("batchflow", 3000)),
     "C17": dict(mc_q=[("single", 2, 4), ("singleeres", 2, 4), ("singlenil", 2, 4), ("singlererun", 1, 4)],
                 mc_t=[("single", 3, 4), ("singleeres", 3, 4), ("singlenil", 3, 4), ("singlererun", 1, 4), ("flow2empty", 1, 4)],
                 gen_q=("single,plain", 200), gen_t=("single,plain,err", 4000)),
